@@ -807,14 +807,6 @@ int main(int argc, char *argv[])
          usage_error("Unable to load the config file");
          return(EX_IOERR);
       }
-      // test if all options are compatible to each other
-      log_rule_B("nl_max");
-
-      if (options::nl_max() > 0)
-      {
-         // test if one/some option(s) is/are not too big for that
-         too_big_for_nl_max();
-      }
    }
    // Set config options using command line arguments.
    idx = 0;
@@ -864,6 +856,15 @@ int main(int argc, char *argv[])
          usage_error("Error while parsing --set");
          return(EX_USAGE);
       }
+   }
+   // test if all options are compatible to each other, whether they come
+   // from the config file or from --set
+   log_rule_B("nl_max");
+
+   if (options::nl_max() > 0)
+   {
+      // test if one/some option(s) is/are not too big for that
+      too_big_for_nl_max();
    }
 
    if (arg.Present("--universalindent"))
